@@ -1,6 +1,6 @@
 (* Entry points extracted for the correspondence check of C13 (unique c13_ prefix).  The opcode tables inside
    the model are the generated ones (Gen/Opcodes.v = what the code defines now). *)
-Require Import Bits.Lib.Result Bits.Lib.Bytes Bits.Lib.PyStr Bits.Model.Script.
+Require Import Bits.Lib.Result Bits.Lib.Bytes Bits.Lib.PyStr Bits.Spec.Script Bits.Model.Script.
 Require Bits.Model.Witness.
 Definition c13_script := script.
 Definition c13_decode_script := decode_script.
@@ -26,3 +26,5 @@ Definition c13_p2sh_p2wsh_script_sig := p2sh_p2wsh_script_sig.
 (* witness-stack mode (model of build C05/C04: Model/Witness.v) *)
 Definition c13_witness_ser := Bits.Model.Witness.witness_ser.
 Definition c13_witness_deser := Bits.Model.Witness.witness_deser.
+(* the Spec recogniser of canonical scripts, compared with the harness' independent Python reference *)
+Definition c13_canonical := canonical.
